@@ -11,9 +11,12 @@ import RedisVerif.Model.Redis
     * `apply_remote_delta_impl`: `ShardReplicaState::apply_remote_delta`, then the MERGED value
       of the key is re-materialised into the executor;
     * `ApplyRecoveredState` arm.
-  Modelled as the code is after the three `fix:` commits recorded in known_findings.json
+  Modelled as the code is after the `fix:` commits recorded in known_findings.json
   (failed / rejected commands are not replicated; expiry is re-materialised with `SET … PX`;
-  `DEL` of a hash tombstones its fields).
+  `DEL` of a hash tombstones its fields; the recorder replicates the deadline the executor holds
+  after the command — SET with any expiry option, INCR/DECR/INCRBY/DECRBY/APPEND/GETSET; a remote
+  hash that wins over a local non-hash value replaces it; `ReplicatedShardedState::execute`
+  splits a multi-key DEL into one DEL per key).
 
   The executor is the reference model `Redis.step` (M7).  The replicated actor never advances
   the executor's clock: `CommandExecutor::new()` starts at virtual time 0 and `Execute` /
@@ -60,13 +63,9 @@ def applied (c : Cmd) (r : Reply) : Bool :=
       | .xx, true => (match r with | .bulk _ => true | _ => false)
     | _ => true
 
-/-- `expiry_ms` computed by the SET arm of the recorder: only `EX` (×1000) and `PX` are looked
-    at; `EXAT`, `PXAT` and `KEEPTTL` are not (`*seconds as u64` on a value the executor accepted,
-    hence positive) -/
-def setExpiryMs : SetExp → Option Nat
-  | .ex s => some (s * 1000).toNat
-  | .px m => some m.toNat
-  | _ => none
+/-- `executor_ttl_ms(key)`: the remaining time to live the executor holds for the key
+    (`expirations.get(key)` minus `current_time`, which is 0) -/
+def ttlMs (s : State) (k : Nat) : Option Nat := Redis.oldDl s k
 
 /-- `executor.get_data().get(key)` then `as_string()` -/
 def strAt (s : State) (k : Nat) : Option Bytes :=
@@ -93,18 +92,18 @@ def delStep (acc : Shard × Option Delta) (k : Nat) : Shard × Option Delta :=
 
 /-- `record_mutation_post_execute(cmd)`; `post` is the executor's keyspace AFTER the command -/
 def record (rs : Shard) (post : State) : Cmd → Shard × Option Delta
-  | .set k v cond e _ =>
+  | .set k v cond _ _ =>
     match cond with
     | .nx =>
       match strAt post k with
-      | some _ => writeDelta rs k v (setExpiryMs e)
+      | some _ => writeDelta rs k v (ttlMs post k)
       | none => (rs, none)
-    | .xx => if (NMap.get post k).isNone then (rs, none) else writeDelta rs k v (setExpiryMs e)
-    | .always => writeDelta rs k v (setExpiryMs e)
+    | .xx => if (NMap.get post k).isNone then (rs, none) else writeDelta rs k v (ttlMs post k)
+    | .always => writeDelta rs k v (ttlMs post k)
   | .del ks => ks.foldl delStep (rs, none)
   | .incr k | .decr k | .incrby k _ | .decrby k _ | .append k _ | .getset k _ =>
     match strAt post k with
-    | some b => writeDelta rs k b none
+    | some b => writeDelta rs k b (ttlMs post k)
     | none => (rs, none)
   | .hset k fvs => ((rs.recordHashWrite k fvs).1, some (k, (rs.recordHashWrite k fvs).2))
   | .hdel k fs => ((rs.recordHashDelete k fs).1, (rs.recordHashDelete k fs).2.map (fun v => (k, v)))
@@ -140,9 +139,17 @@ def setCmd (k : Nat) (v : Bytes) : Cmd := .set k v .always .none false
     negative `i64`, which the executor rejects — as the model rejects a deadline beyond `i64`) -/
 def setPxCmd (k : Nat) (v : Bytes) (ms : Nat) : Cmd := .set k v .always (.px ms) false
 
-/-- the hash branch: HSET of the live fields (if any), then HDEL of the tombstoned ones (if any) -/
+/-- `executor.get_data().get(key).is_some_and(|v| v.as_hash().is_none())` -/
+def nonHashAt (s : State) (k : Nat) : Bool :=
+  match NMap.get s k with
+  | some e => (match e.val with | .hash _ => false | _ => true)
+  | none => false
+
+/-- the hash branch: a value of another type is deleted first; then HSET of the live fields (if
+    any), then HDEL of the tombstoned ones (if any) -/
 def rematHash (exec : State) (k : Nat) (h : NMap Lww) : State :=
-  let e1 := if (liveFields h).isEmpty then exec else (execStep exec (.hset k (liveFields h))).1
+  let e0 := if nonHashAt exec k then (execStep exec (.del [k])).1 else exec
+  let e1 := if (liveFields h).isEmpty then e0 else (execStep e0 (.hset k (liveFields h))).1
   if (tombFields h).isEmpty then e1 else (execStep e1 (.hdel k (tombFields h))).1
 
 /-- the string branch shared by `apply_remote_delta_impl` and `ApplyRecoveredState` -/
@@ -229,47 +236,28 @@ def materialise : Option RV → Option Redis.VEntry
 /-- what the node serves for one key (value and remaining TTL at the executor's instant 0) -/
 def served (n : Node) (k : Nat) : Option Redis.VEntry := NMap.get (Redis.view n.exec 0) k
 
-/-- remaining TTL of a key in the executor (none = no deadline or no key) -/
-def ttlAt (s : State) (k : Nat) : Option Nat :=
-  match NMap.get (Redis.view s 0) k with
-  | some e => e.ttl
-  | none => none
-
 /-- a register that `apply_remote_delta_impl` can re-materialise: tombstone or a value -/
 def Lww.proper (r : Lww) : Bool := r.tomb || r.value.isSome
 
 /-- why a step is outside the supported fragment -/
 inductive Reason where
   | nonReplicatedWriter   -- a command the recorder ignores changed the served keyspace
-  | setExpiryNotRecorded  -- SET … EXAT/PXAT, or KEEPTTL on a key that has a TTL
-  | modifyKeepsTtl        -- INCR/DECR/INCRBY/DECRBY/APPEND on a key that has a TTL
-  | hashOverNonHash       -- remote hash wins while the executor holds another type
   | badDelta              -- delta not canonical; merged value an empty register / another CRDT kind
   | expiryRange           -- merged expiry_ms is 0 or beyond i64 (SET … PX rejects it)
-  | multiKeyDel           -- (cluster level) DEL k₁ … kₙ: only the last key's delta is handed back
   deriving DecidableEq, Repr
 
-/-- does the executor hold a non-hash value under `k`? -/
-def holdsNonHash (s : State) (k : Nat) : Bool :=
-  match NMap.get (Redis.view s 0) k with
-  | some e => (match e.val with | .hash _ => false | _ => true)
-  | none => false
+/-- does the recorder know the command? -/
+def recorded : Cmd → Bool
+  | .set _ _ _ _ _ | .del _ | .getset _ _ | .hset _ _ | .hdel _ _ | .hincrby _ _ _
+  | .incr _ | .decr _ | .incrby _ _ | .decrby _ _ | .append _ _ => true
+  | _ => false
 
 /-- the reason (if any) why event `e` at node `n` is outside the supported fragment -/
 def unsupported (n : Node) : NEv → Option Reason
   | .client c =>
-    match c with
-    | .set k _ _ e _ =>
-      (match e with
-       | .exat _ | .pxat _ => some .setExpiryNotRecorded
-       | .keepttl => if (ttlAt n.exec k).isSome then some .setExpiryNotRecorded else none
-       | _ => none)
-    | .del _ | .getset _ _ | .hset _ _ | .hdel _ _ | .hincrby _ _ _ => none
-    | .incr k | .decr k | .incrby k _ | .decrby k _ | .append k _ =>
-      if (ttlAt n.exec k).isSome then some .modifyKeepsTtl else none
-    | c =>
-      if Redis.view (execStep n.exec c).1 0 = Redis.view n.exec 0 then none
-      else some .nonReplicatedWriter
+    if recorded c then none
+    else if Redis.view (execStep n.exec c).1 0 = Redis.view n.exec 0 then none
+    else some .nonReplicatedWriter
   | .deliver k d =>
     if ¬ d.WF then some .badDelta
     else
@@ -277,10 +265,7 @@ def unsupported (n : Node) : NEv → Option Reason
       | none => none
       | some m =>
         match m.crdt with
-        | .hash h =>
-          if ¬ h.all (fun p => Lww.proper p.2) then some .badDelta
-          else if holdsNonHash n.exec k then some .hashOverNonHash
-          else none
+        | .hash h => if ¬ h.all (fun p => Lww.proper p.2) then some .badDelta else none
         | .lww r =>
           if ¬ Lww.proper r then some .badDelta
           else
@@ -315,22 +300,32 @@ inductive GEv where
   | deliver (j : Nat) (idx : Nat)
   deriving Repr
 
+/-- `ReplicatedShardedState::execute`: a multi-key DEL is executed key by key (one shard command,
+    hence one delta, per key); every other command goes to the shard actor as it is -/
+def splitCmd : Cmd → List Cmd
+  | .del ks => if ks.length > 1 then ks.map (fun k => .del [k]) else [.del ks]
+  | c => [c]
+
 namespace GCluster
 
 def init (n : Nat) (causal : Bool) : GCluster :=
   { nodes := (List.range n).map (fun i => Node.init (i + 1) causal), sent := [], log := [] }
 
+/-- one command handed to the shard actor of node `i` (`ReplicatedShardHandle::execute`): the
+    delta it hands back is what `ReplicatedShardedState::execute` queues for gossip -/
+def clientOne (g : GCluster) (i : Nat) (c : Cmd) : GCluster :=
+  match g.nodes[i]? with
+  | none => g
+  | some nd =>
+    match (nd.client c).2.2 with
+    | some d =>
+      { nodes := g.nodes.set i (nd.client c).1
+        sent := g.sent ++ [⟨i, d.1, d.2⟩]
+        log := g.log ++ [⟨i, d.1, d.2⟩] }
+    | none => { g with nodes := g.nodes.set i (nd.client c).1 }
+
 def step (g : GCluster) : GEv → GCluster
-  | .client i c =>
-    match g.nodes[i]? with
-    | none => g
-    | some nd =>
-      match (nd.client c).2.2 with
-      | some d =>
-        { nodes := g.nodes.set i (nd.client c).1
-          sent := g.sent ++ [⟨i, d.1, d.2⟩]
-          log := g.log ++ [⟨i, d.1, d.2⟩] }
-      | none => { g with nodes := g.nodes.set i (nd.client c).1 }
+  | .client i c => (splitCmd c).foldl (fun g c' => g.clientOne i c') g
   | .deliver j idx =>
     match g.nodes[j]?, g.sent[idx]? with
     | some nd, some m =>
@@ -348,24 +343,13 @@ def proj (g : GCluster) : Cluster := { nodes := g.nodes.map (·.rs), sent := g.s
 
 end GCluster
 
-/-- `DEL k₁ … kₙ` hands back only the LAST key's delta (the others stay in `pending_deltas`, which
-    `ReplicatedState::execute` never drains): every delta reaches the peers iff no earlier key has
-    an entry in the replication state -/
-def delShipsAll (rs : Shard) (ks : List Nat) : Bool :=
-  ks.dropLast.all (fun k => (NMap.get rs.keys k).isNone)
-
-/-- cluster level: the node-level reasons plus `multiKeyDel` -/
+/-- cluster level: the node-level reasons (the sub-commands of a split DEL are recorded
+    commands, hence always supported) -/
 def gunsupported (g : GCluster) : GEv → Option Reason
   | .client i c =>
     match g.nodes[i]? with
     | none => none
-    | some nd =>
-      match unsupported nd (.client c) with
-      | some r => some r
-      | none =>
-        (match c with
-         | .del ks => if delShipsAll nd.rs ks then none else some .multiKeyDel
-         | _ => none)
+    | some nd => unsupported nd (.client c)
   | .deliver j idx =>
     match g.nodes[j]?, g.sent[idx]? with
     | some nd, some m => if m.origin = j then none else unsupported nd (.deliver m.key m.val)
